@@ -13,9 +13,11 @@ import (
 	"os"
 	"os/signal"
 	"reflect"
+	"runtime"
 	"runtime/debug"
 	"strings"
 	"syscall"
+	"time"
 
 	"github.com/reeflective/readline"
 	"github.com/reeflective/readline/inputrc"
@@ -52,20 +54,21 @@ type compSpec struct {
 }
 
 type scenario struct {
-	Vi         bool       `json:"vi"`
-	Prompt     string     `json:"prompt"`
-	Calls      int        `json:"calls"`
-	Histories  []histSpec `json:"histories"`
-	Probes     []bindSpec `json:"probes"`
-	Binds      []bindSpec `json:"binds"`
-	ClearMaps  []string   `json:"clear_maps"` // keymaps emptied before binds/probes are applied
-	Completer  *compSpec  `json:"completer"`
-	Multiline  bool       `json:"multiline"` // accept only when the line does not end with a backslash
-	PanicCmd   string     `json:"panic_cmd"` // name of a registered command that panics
-	SelPos     bool       `json:"sel_pos"`   // also report Selection().Pos() in snapshots
-	PrintfAt   []int      `json:"printf_at"` // wait indexes at which another goroutine calls Shell.Printf
-	NoSnapshot bool       `json:"no_snapshot"`
-	CompSnap   bool       `json:"comp_snap"` // also report the completion engine (grids, selector, completed line) in snapshots
+	Vi          bool       `json:"vi"`
+	Prompt      string     `json:"prompt"`
+	Calls       int        `json:"calls"`
+	Histories   []histSpec `json:"histories"`
+	Probes      []bindSpec `json:"probes"`
+	Binds       []bindSpec `json:"binds"`
+	ClearMaps   []string   `json:"clear_maps"` // keymaps emptied before binds/probes are applied
+	Completer   *compSpec  `json:"completer"`
+	Multiline   bool       `json:"multiline"` // accept only when the line does not end with a backslash
+	PanicCmd    string     `json:"panic_cmd"` // name of a registered command that panics
+	SelPos      bool       `json:"sel_pos"`   // also report Selection().Pos() in snapshots
+	PrintfAt    []int      `json:"printf_at"` // wait indexes at which another goroutine calls Shell.Printf
+	NoSnapshot  bool       `json:"no_snapshot"`
+	AskersCheck bool       `json:"askers_check"` // after each call, count goroutines still inside GetCursorPos
+	CompSnap    bool       `json:"comp_snap"`    // also report the completion engine (grids, selector, completed line) in snapshots
 }
 
 var rep *os.File
@@ -100,7 +103,7 @@ func (r *snapReader) Read(p []byte) (int, error) {
 			"sel":  []interface{}{act, vis, visl, b, e},
 			"main": string(sh.Keymap.Main()), "local": string(sh.Keymap.Local()),
 			"upos": sh.History.Pos(), "kill": runes(string(sh.Buffers.GetKill())),
-			"rec":  sh.Macros.Recording(),
+			"rec": sh.Macros.Recording(),
 		}
 		if r.sc.SelPos {
 			pb, pe := sh.Selection().Pos()
@@ -320,6 +323,19 @@ func main() {
 			}
 			emit(map[string]interface{}{"ev": "return", "call": call, "line": runes(line), "err": kind})
 		}()
+		if sc.AskersCheck {
+			// goroutines still inside GetCursorPos some time after the call returned: askers nobody will ever answer
+			time.Sleep(60 * time.Millisecond)
+			buf := make([]byte, 1<<20)
+			n := runtime.Stack(buf, true)
+			stuck := 0
+			for _, g := range strings.Split(string(buf[:n]), "\n\n") {
+				if strings.Contains(g, "GetCursorPos") {
+					stuck++
+				}
+			}
+			emit(map[string]interface{}{"ev": "askers", "call": call, "stuck": stuck})
+		}
 		after := termios()
 		emit(map[string]interface{}{"ev": "termios", "call": call, "equal": before != nil && after != nil && reflect.DeepEqual(*before, *after),
 			"raw_after": after != nil && after.Lflag&unix.ICANON == 0})
